@@ -51,6 +51,8 @@ def render : Ev → String
   | .cbNaws w h => s!"cb naws {w} {h}"
   | .tx b => s!"tx {hexOf b}"
   | .cl b => s!"cl {hexOf b}"
+  | .errmsg k => s!"err C13 scripted error in callback {k}"
+  | .cberr => "err"
   | .closed => "closed"
   | .crash why => s!"crash {why}"
 
@@ -69,6 +71,8 @@ def parseEv (line : String) : Option Ev :=
   | ["tx", h] => (unhex h).map .tx
   | ["cl", h] => (unhex h).map .cl
   | ["closed"] => some .closed
+  | ["err"] => some .cberr
+  | ["err", "C13", "scripted", "error", "in", "callback", k] => k.toNat?.map .errmsg
   | _ => none
 
 def parsePort : String → Option Port
@@ -90,9 +94,24 @@ def parseOp (line : String) : Option Op :=
   | ["line", h] => (unhex h).map .line
   | _ => none
 
-/-- (port, ops) of a case, or the offending line -/
-def parseCase (lines : List String) : Except String (Port × List Op) :=
+/-- `cb <k> err|dest` lines -/
+def parseCb (line : String) : Option (Nat × Outcome) :=
+  match NV.Proto.toks line with
+  | ["cb", k, "err"] => k.toNat?.map (·, Outcome.err)
+  | ["cb", k, "dest"] => k.toNat?.map (·, Outcome.dest)
+  | ["cb", k, "ok"] => k.toNat?.map (·, Outcome.ok)
+  | _ => none
+
+def oracleOf (tab : List (Nat × Outcome)) : Oracle := fun k =>
+  match tab.reverse.find? (fun e => e.1 == k) with
+  | some e => e.2
+  | none => .ok
+
+/-- (port, oracle table, ops) of a case, or the offending line -/
+def parseCase (lines : List String) : Except String (Port × List (Nat × Outcome) × List Op) :=
   let lines := lines.filter (fun l => !(l.startsWith "#") && l.trimAscii.toString != "")
+  let cbs := lines.filterMap parseCb
+  let lines := lines.filter (fun l => (parseCb l).isNone)
   match lines with
   | [] => .error "empty case"
   | first :: rest =>
@@ -108,24 +127,24 @@ def parseCase (lines : List String) : Except String (Port × List Op) :=
             | some op => go r (op :: acc)
             | none => .error l
         match go rest [] with
-        | .ok ops => .ok (p, ops)
+        | .ok ops => .ok (p, cbs, ops)
         | .error l => .error l
     | _ => .error first
 
 def runModel (lines : List String) : List String :=
   match parseCase lines with
   | .error l => [s!"bad-line {l}"]
-  | .ok (p, ops) => (run p ops).evs.map render
+  | .ok (p, cbs, ops) => (run p (oracleOf cbs) ops).evs.map render
 
 def runJudge (body : List String) : List String :=
   let (input, impl) := splitJudge body
   match parseCase input with
   | .error l => [s!"bad unparsable-case {l}"]
-  | .ok (p, _) =>
+  | .ok (p, cbs, _) =>
     let evs := impl.map (fun l => match parseEv l with
       | some e => e
       | none => Ev.crash l)          -- `crash ...`, `sanitizer ...` and anything unknown
-    match judgeEv p evs with
+    match judgeEv p evs (cbs.any (fun e => e.2 == Outcome.dest)) with
     | [] => ["ok"]
     | vs => vs.map (fun v => s!"bad {v}")
 
